@@ -39,6 +39,9 @@ var c15Single = []c15Op{
 	{"push(u)", c15Call("push", V("u"))}, // u is never assigned: an unset element
 	{"contains(0)", c15Call("contains", N("0"))},
 	{"contains(u)", c15Call("contains", V("u"))},
+	// sort returns a copy: changing the copy must not change the array
+	{"sort().push(5)", func(a func() Expr) Expr { return CallE(Mem(CallE(Mem(a(), "sort")), "push"), N("5")) }},
+	{"sort()[0]=6", func(a func() Expr) Expr { return Asg("=", Idx(CallE(Mem(a(), "sort")), N("0")), N("6")) }},
 }
 
 const c15Core = 11 // the first 11 operations: the length-changing ones, reads and writes
@@ -194,8 +197,8 @@ func c15Units(t fw.Tier) (units [][3]int) {
 func init() {
 	fw.Register(&fw.Prop{
 		ID: "C15",
-		Rule: "all sequences of exactly D operations (every shorter history is a prefix of one of them, and a run prints result, contents and length after each operation) over 19 operations on one array " +
-			"(push of a number / string / array / unset value, pop, popfirst, reads and writes at 0, -1 and length, length, contains of a number / string / unset value, sort), with the array held by a variable, inside the input document ($.arr, also compared through -o), inside an object (o.k) and inside another array (m[0]); " +
+		Rule: "all sequences of exactly D operations (every shorter history is a prefix of one of them, and a run prints result, contents and length after each operation) over 21 operations on one array " +
+			"(push of a number / string / array / unset value, pop, popfirst, reads and writes at 0, -1 and length, length, contains of a number / string / unset value, sort, and a push / index store into the result of sort), with the array held by a variable, inside the input document ($.arr, also compared through -o), inside an object (o.k) and inside another array (m[0]); " +
 			"deeper histories over the 11 length-changing and indexing operations; all sequences over 11 operations on an array with unset elements (observed through booleans and numbers only); and all sequences over 14 operations on two arrays including calls nested in each other's arguments and aliasing; histories are not merged (slice capacity is hidden state); oracle: ideal list in the reference interpreter; " +
 			"a state is a distinct model list reached; non-trivial = same",
 		Plan: func(t fw.Tier) int { return len(c15Units(t)) },
